@@ -64,7 +64,7 @@ unsigned in_e, in_pop_t, in_push_t, in_gk; word_t in_val;
 /* ---- ghost state ---- */
 unsigned g_released, g_get_count, g_del_total, g_alloc_count, g_delete_count, g_fresh, g_valdel;
 word_t g_get_val, g_trk_val, g_last_alloc;
-_Bool g_alloc_may_fail, g_dtor_stub;
+_Bool g_alloc_may_fail, g_dtor_stub, mon_check; int mon_role;       /* mon_role: 1 = this thread is a producer, 2 = a consumer */
 
 /* ---- guard_ptr contract stubs ---- */
 word_t it_guard; _Bool it_acquired; uint64_t it_acq_clock;
@@ -96,7 +96,6 @@ static optval TR_get(word_t raw);
 static void TR_delete_value(word_t raw);
 static marked_ptr XV_NEW_NODE(raw_value_type item);
 static void XV_DELETE_NODE(marked_ptr w);
-static void havoc_shared(void);
 static optval stub_pop(struct ramq* self);
 static _Bool is_nptr(word_t w);
 static unsigned nidx(word_t w);
@@ -113,16 +112,16 @@ void xv_env(void);
 #endif
 
 /* ---- loop cuts (INT runs): one arbitrary iteration from an arbitrary typed state ---- */
-static void havoc_shared(void);
+static void havoc_shared(_Bool rely);
 /* INT: nothing is carried from one iteration to the next except: every node this thread allocated and could not link has been deleted again,
  * nothing was destroyed, and an iteration that published the value (successful entry CAS / link CAS) does not come back here */
 #define XV_INV_PUSH (g_alloc_count == g_delete_count && g_valdel == 0 && g_del_total == 0 && !it_entry_cas_ok && !it_link_ok \
                      && (t == 0 || (is_nptr(t) && a_live[nidx(t) % NN])))
-#define XV_HAVOC_PUSH t = nondet_word(); value = nondet_bool() ? value : 0; IT_RESET; havoc_shared() \
+#define XV_HAVOC_PUSH t = nondet_word(); value = nondet_bool() ? value : 0; IT_RESET; havoc_shared(0) \
   /* writes: idx expected next new_node (declared inside); shared cells via GDEREF(t)->entries[idx].value / push_idx / next (lowered to N_entry, N_push_idx, N_next) and self->_tail */
 #define XV_INV_POP ((h == 0 || (is_nptr(h) && a_live[nidx(h) % NN])) && g_get_count == 0 \
                     && (!(it_ticket_drawn && it_idx < max_idx) || (it_entry_xchg && it_entry_seen == 0)))
-#define XV_HAVOC_POP h = nondet_word(); IT_RESET; havoc_shared() \
+#define XV_HAVOC_POP h = nondet_word(); IT_RESET; havoc_shared(0) \
   /* writes: idx value cnt expected next pop_idx push_idx (declared inside); shared cells via GDEREF(h)->entries[idx].value / pop_idx (lowered to N_entry, N_pop_idx) and self->_head */
 /* SEQ: the loops are cut by invariants that relate the current state to the pre-state snapshot (defined below) */
 static _Bool inv_pushseq(word_t value);
@@ -179,8 +178,8 @@ static marked_ptr XV_NEW_NODE(raw_value_type item) {
   unsigned i = g_fresh++;
   struct node raw; havoc_words(&raw); raw.g_live = 1; raw.g_retired = 0; raw.g_deleted = 0;    /* uninitialised storage */
   for (unsigned c = 0; c < NN; c++) if (c == i) put(c, &raw);
+  g_alloc_count++; g_last_alloc = NPTR(i);            /* private to this thread from here on */
   ram_node_ctor(NPTR(i), item);
-  g_alloc_count++; g_last_alloc = NPTR(i);
   return NPTR(i);
 }
 static void XV_DELETE_NODE(marked_ptr w) {
@@ -195,12 +194,13 @@ static void XV_DELETE_NODE(marked_ptr w) {
 #define IT_HAS_TICKET (it_acquired && it_ticket_drawn && it_idx < max_idx)
 #define IT_ENTRY ((void*)&a_entry[IT_GI][it_idx % XV_E])
 static void mon_load(void* addr, uint64_t v, int o) {
-  if (!it_acquired) return;
+  if (!mon_check || !it_acquired) return;
   if (addr == (void*)&a_next[IT_GI]) { it_next_val = v; it_next_loaded = 1; }
   if (IT_HAS_TICKET && addr == IT_ENTRY) { it_entry_seen = v; it_entry_read = 1; }
 }
 static void mon_store(void* addr, uint64_t v, int o) { }
 static void mon_rmw(void* addr, uint64_t oldv, uint64_t newv, int o) {
+  if (!mon_check) return;
   if (addr == (void*)&a_push_idx[IT_GI] || addr == (void*)&a_pop_idx[IT_GI]) {
     XV_OBL("ram.int.ticket", it_acquired && !it_ticket_drawn && newv == oldv + XV_STEP);   /* one ticket per iteration, from the protected node */
     it_ticket_drawn = 1; it_idx = (unsigned)oldv;
@@ -211,6 +211,7 @@ static void mon_rmw(void* addr, uint64_t oldv, uint64_t newv, int o) {
   }
 }
 static void mon_cas(void* addr, uint64_t e, uint64_t d, _Bool ok, int o) {
+  if (!mon_check) return;
   if (addr == (void*)&mon_q->_tail) {
     /* swing the tail: from the node the guard protects to the node linked behind it */
     it_tail_cas++;
@@ -247,6 +248,12 @@ static void mon_cas(void* addr, uint64_t e, uint64_t d, _Bool ok, int o) { }
 static unsigned spec_slot(unsigned k) { for (unsigned c = 0; c < XV_E; c++) if (k == c) return (c * XV_STEP) % XV_E; return 0; }
 static unsigned tk(unsigned k) { for (unsigned c = 0; c <= XV_E; c++) if (k == c) return TK(c); return TK(XV_E); }   /* symbolic k <= E */
 #define MAXT ((unsigned)1 << 27)         /* assumption: fewer than 2^27 tickets per node (no wrap of the 32-bit counters) */
+/* counter value after t tickets: small t through a table of constants (keeps the case analysis over the tickets of one node propositional) */
+static unsigned tk_any(unsigned t) {
+  for (unsigned c = 0; c <= XV_E + 4; c++) if (t == c) return TK(c);
+  /* far beyond the node: only "counter >= max_idx" matters to the code; any such value (a superset of the multiples of step_size) */
+  unsigned v = nondet_uint(); XV_ASSUME(v >= TK(XV_E + 5) && v < TK(MAXT)); return v;
+}
 struct node s_pre[NN]; word_t s_head0, s_tail0;      /* pre-state snapshot (the cut-loop invariants refer to it) */
 /* representation invariant of one node (what concurrent pushes/pops can leave behind at any instant);
  * that the counters are multiples of step_size is established by construction (havoc_node) and kept by `advanced` below */
@@ -265,7 +272,7 @@ static _Bool node_inv(const struct node* n) {
 static struct node havoc_node(unsigned i) {
   struct node n; havoc_words(&n); n.g_live = 1; n.g_retired = 0; n.g_deleted = 0;
   unsigned pt = nondet_uint(), qt = nondet_uint(); XV_ASSUME(pt < MAXT / 2 && qt < MAXT / 2);
-  n.push_idx = pt * XV_STEP; n.pop_idx = qt * XV_STEP;        /* tickets handed out so far: any number, also far beyond entries_per_node */
+  n.push_idx = tk_any(pt); n.pop_idx = tk_any(qt);            /* tickets handed out so far: any number, also far beyond entries_per_node */
   XV_ASSUME(node_inv(&n));
   put(i, &n); s_pre[i] = n; return n;
 }
@@ -352,7 +359,7 @@ static _Bool inv_popseq(void) {
 static void reset_ghost(void) {
   g_released = 0; g_get_count = 0; g_del_total = 0; g_alloc_count = 0; g_delete_count = 0; g_valdel = 0;
   g_get_val = nondet_word(); g_trk_val = 0; g_last_alloc = 0; g_alloc_may_fail = 0; g_dtor_stub = 0;
-  xv_threw = 0; IT_RESET; it_guard = 0;
+  xv_threw = 0; IT_RESET; it_guard = 0; mon_check = 0;
 }
 
 /* =========================== ram.idx.injective =========================== */
@@ -412,7 +419,7 @@ void h_node_dtor(void) {
 #else
   XV_ASSUME(in_pop_t < MAXT / 2 && in_push_t < MAXT / 2);
 #endif
-  n0.pop_idx = in_pop_t * XV_STEP; n0.push_idx = in_push_t * XV_STEP;
+  n0.pop_idx = tk_any(in_pop_t); n0.push_idx = tk_any(in_push_t);
   XV_ASSUME(node_inv(&n0));
   put(0, &n0);
   in_gk = nondet_uint(); XV_ASSUME(in_gk < XV_E);
@@ -506,7 +513,10 @@ void h_push(void) {
     XV_OBL("ram.push.slot", T.ent[sT] == in_val && T.push_idx == fT + XV_STEP);
     XV_OBL("ram.push.slot", T.next == T0.next && q._tail == NPTR(0) && g_alloc_count == 0);
     check_node_unchanged(&T, &T0, (int)sT, 0); check_node_unchanged(&N, &N0, -1, 1);
-    if (fT > T0.push_idx) XV_CANARY("push.slot_after_invalidated"); else XV_CANARY("push.slot");
+#if XV_E > 1
+    if (fT > T0.push_idx) XV_CANARY("push.slot_after_invalidated");
+#endif
+    if (fT <= T0.push_idx) XV_CANARY("push.slot");
   } else if (T0.next == 0) {                   /* B: tail node full (or every remaining ticket invalidated), no successor: append */
     pn = 2; pidx = 0; fresh = 1;
     XV_OBL("ram.push.new_node", T.next == NPTR(2) && q._tail == NPTR(2));
@@ -602,7 +612,9 @@ void h_pop(void) {
     }
     if (hp > 0) XV_CANARY("pop.value_next_node");
     if (hp == 2) XV_CANARY("pop.value_third_node");
+#if XV_E > 1
     if (ridx > pre[hp].pop_idx) XV_CANARY("pop.value_after_invalidating");
+#endif
     if (hp == 0 && ridx == pre[0].pop_idx) XV_CANARY("pop.value");
   } else {
     XV_OBL("ram.pop.empty", !g_in);                  /* 'empty' only if there was no value in the queue */
@@ -629,15 +641,31 @@ void h_try_pop(void) {
 }
 
 /* =========================== INT: one iteration under arbitrary interference =========================== */
-static void havoc_shared(void) {
-  /* every shared cell gets an arbitrary well-typed value; a node that is private to this thread (allocated, not yet published) is left alone */
+/* rely = 0: an arbitrary well-typed state (loop head).  rely = 1: a step of the other threads: counters only grow (fetch_add), a next
+ * pointer is written once (null -> node), an entry changes only null -> value (its producer), null -> INVALID or value -> INVALID (its consumer);
+ * head and tail may point to any live node.  A node that is private to this thread (allocated, not yet published) is never touched. */
+static void havoc_shared(_Bool rely) {
   _Bool have_private = g_alloc_count > g_delete_count && !it_link_ok;
   for (unsigned i = 0; i < NN; i++) {
     if (!a_live[i]) continue;
     if (have_private && NPTR(i) == g_last_alloc) continue;
-    a_pop_idx[i] = nondet_uint(); a_push_idx[i] = nondet_uint();
-    word_t nx = nondet_word(); XV_ASSUME(nx == 0 || (is_nptr(nx) && a_live[nidx(nx) % NN] && nidx(nx) != i)); a_next[i] = nx;
-    for (unsigned s = 0; s < XV_E; s++) { marked_value w = nondet_word(); XV_ASSUME(IS_ENTRY_WORD(w)); a_entry[i][s] = w; }
+    unsigned npt = nondet_uint(), nqt = nondet_uint(); XV_ASSUME(npt < MAXT && nqt < MAXT);
+    unsigned np = npt * XV_STEP, nq = nqt * XV_STEP;           /* counters are multiples of step_size */
+    if (rely) XV_ASSUME(np >= a_push_idx[i] && nq >= a_pop_idx[i]);
+    a_pop_idx[i] = nq; a_push_idx[i] = np;
+    word_t nx = nondet_word(); XV_ASSUME(nx == 0 || (is_nptr(nx) && a_live[nidx(nx) % NN] && nidx(nx) != i));
+    XV_ASSUME(!(have_private && nx == g_last_alloc));
+    if (!(rely && a_next[i] != 0)) a_next[i] = nx;
+    for (unsigned s = 0; s < XV_E; s++) {
+      marked_value w = nondet_word(), old = a_entry[i][s]; XV_ASSUME(IS_ENTRY_WORD(w));
+      if (rely) XV_ASSUME(w == old || old == 0 || (IS_VALUE(old) && w == INVALID));
+      /* the entry whose ticket this thread holds: only the partner of that ticket touches it (consumer: null -> INVALID; producer: null -> value) */
+      if (rely && it_acquired && it_ticket_drawn && it_idx < max_idx && i == nidx(it_guard) % NN && s == it_idx % XV_E)
+        XV_ASSUME(w == old || (old == 0 && (mon_role == 1 ? w == INVALID : IS_VALUE(w))));
+      a_entry[i][s] = w;
+    }
+    /* INVALID is written only by the consumer that drew the ticket: never at a ticket not yet handed to a consumer */
+    for (unsigned k = 0; k < XV_E; k++) if (TK(k) >= a_pop_idx[i]) XV_ASSUME(a_entry[i][spec_slot(k)] != INVALID);
   }
   word_t hd = nondet_word(), tl = nondet_word();
   XV_ASSUME(is_nptr(hd) && a_live[nidx(hd) % NN] && is_nptr(tl) && a_live[nidx(tl) % NN]);
@@ -648,7 +676,7 @@ static void havoc_shared(void) {
 _Bool env_on; int env_kind; _Bool env_linked;
 void xv_env(void) {
   if (!env_on) return;
-  if (env_kind == 0) { if (nondet_bool()) havoc_shared(); return; }      /* rely: anything well-typed */
+  if (env_kind == 0) { if (nondet_bool()) havoc_shared(1); return; }
   /* env_kind 1: one competing producer B: draws a ticket on the full tail node 0, links its node 1 behind it, later swings the tail */
   if (!env_linked) {
     if (nondet_bool() && a_next[0] == 0 && a_push_idx[0] >= max_idx) { a_next[0] = NPTR(1); a_push_idx[0] += XV_STEP; env_linked = 1; }
@@ -659,14 +687,14 @@ static void setup_int(struct ramq* q) {
   for (unsigned i = 0; i < NN; i++) dead_node(i);
   for (unsigned i = 0; i < 3; i++) a_live[i] = 1;
   g_fresh = 3;
-  mon_q = q; havoc_shared();
+  mon_q = q; havoc_shared(0);
 }
 void h_push_int(void) {
 #ifdef XV_INT
   reset_ghost();
   struct ramq q; setup_int(&q);
   g_raw = nondet_word(); XV_ASSUME(g_raw != 0 && (g_raw & MARK63) == 0); g_trk_val = g_raw;
-  env_kind = 0; env_on = 1;
+  env_kind = 0; env_on = 1; mon_check = 1; mon_role = 1;
   ram_push_cut(&q, g_raw);
   env_on = 0;
   /* push returns only from an iteration in which its own CAS published the value */
@@ -680,7 +708,7 @@ void h_pop_int(void) {
 #ifdef XV_INT
   reset_ghost();
   struct ramq q; setup_int(&q);
-  env_kind = 0; env_on = 1;
+  env_kind = 0; env_on = 1; mon_check = 1; mon_role = 2;
   optval r = ram_pop_cut(&q);
   env_on = 0;
   if (r.has) {
@@ -701,8 +729,8 @@ void h_push_rollback(void) {
 #ifdef XV_INT
   reset_ghost();
   struct ramq q;
-  /* element 0: the tail node, no successor yet.  element 1: the node producer B is about to link (holds B's value).  elements 2, 3: free */
-  struct node T0 = havoc_node(0); XV_ASSUME(T0.next == 0);
+  /* element 0: the tail node, full, no successor yet.  element 1: the node producer B is about to link (holds B's value).  elements 2, 3: free */
+  struct node T0 = havoc_node(0); XV_ASSUME(T0.next == 0 && T0.push_idx >= max_idx);
   struct node N0 = havoc_node(1); XV_ASSUME(N0.next == 0);
   dead_node(2); dead_node(3);
   g_fresh = 2; q._tail = NPTR(0); q._head = nondet_word(); mon_q = &q; word_t head0 = q._head;
